@@ -168,7 +168,7 @@ def bf_vector_is_composition(name, target, noise, kwargs):
         return Skip('unsupported name')
     if r[1] == 'ch' and r[2] >= target.shape[-1]:
         return Skip('channel index >= sensors')
-    t0, n0 = target.copy(), noise.copy()
+    t0, n0 = target.copy(order='K'), noise.copy(order='K')
     want = compose(name, target, noise, kwargs, helpers=True)
     # with an estimated reference channel the arg-max over (analytically equal) SNRs of a rank-one target is decided by
     # rounding, so the written-out pre-step is only compared when the reference channel is explicit
@@ -305,7 +305,7 @@ def stacked_equals_slices(fn, arrays, kwargs, regular):
             if regular is None:
                 raise            # regular inputs: every individual problem must have a result
             return Skip(f'individual problem is rejected ({type(e).__name__})')
-    copies = {k: v.copy() for k, v in arrays.items()}
+    copies = {k: v.copy(order='K') for k, v in arrays.items()}
     try:
         stacked = np.asarray(_call(fn, arrays, kwargs))
     except Exception as e:  # noqa
@@ -339,7 +339,7 @@ def _lcmv_stacked(arrays):
 @oracle
 def phase_correction_aligns(vector):
     """every leading index: w_f^H w_{f-1} real and non-negative, magnitudes unchanged, first bin unchanged"""
-    v0 = vector.copy()
+    v0 = vector.copy(order='K')
     got = np.asarray(bfm.phase_correction(vector))
     if vector.tobytes() != v0.tobytes():
         return Fail('input-modified', 'phase_correction changed the caller\'s array')
@@ -402,7 +402,7 @@ def singular_psd_finite(fn, target, noise, target_regular, noise_regular, singul
 @oracle
 def stable_solve_is_isolated(A, B, singular):
     """regular matrices get the plain solution whatever the neighbours are; singular ones a finite least-squares one"""
-    a0, b0 = A.copy(), B.copy()
+    a0, b0 = A.copy(order='K'), B.copy(order='K')
     C = np.asarray(slv.stable_solve(A, B))
     if A.tobytes() != a0.tobytes() or B.tobytes() != b0.tobytes():
         return Fail('input-modified', 'stable_solve changed a caller array')
@@ -497,7 +497,7 @@ def make_singular(rng, target, noise, n_fixed_lead=0):
     sing = rng.random(lead) < rng.choice([0.2, 0.5, 1.0])
     if not sing.any():
         sing[tuple(int(rng.integers(s)) for s in lead)] = True
-    t2, n2 = target.copy(), noise.copy()
+    t2, n2 = target.copy(order='K'), noise.copy(order='K')
     for idx in np.argwhere(sing):
         idx = tuple(idx)
         if which in ('noise', 'both'):
@@ -630,6 +630,10 @@ def search(ctx):
         fn = ['souden', 'wmwf'][i % 2]
         lead = extra + (F,)
         t, n = gen_psd_pair(rng, lead, D)
+        if rng.random() < 0.3:
+            # real-dtype noise PSD (e.g. a diffuse-noise model) with a complex target PSD: mixed dtypes in the solves
+            n = np.ascontiguousarray(n.real)
+            ctx.count('search-singular-dtype:real-noise')
         t2, n2, sing, which, kind = make_singular(rng, t, n)
         ref = int(rng.integers(D)) if (extra or rng.random() < 0.6) else None
         ctx.count(f'search-singular:{fn}:{which}:{kind}')
@@ -645,6 +649,12 @@ def search(ctx):
         s2 = rng.random(lead) < 0.4
         for idx in np.argwhere(s2):
             A[tuple(idx)] = pu.singular_psd(rng, D, str(rng.choice(['zero', 'dead-channel'])))
+        dkind = str(rng.choice(['complex/complex', 'complex/complex', 'real/complex', 'real/real', 'complex/real']))
+        if dkind.startswith('real'):
+            A = np.ascontiguousarray(A.real)
+        if dkind.endswith('real'):
+            B = np.ascontiguousarray(B.real)
+        ctx.count(f'search-stable-solve-dtypes:{dkind}')
         ctx.run(stable_solve_is_isolated, A=A, B=B, singular=s2)
         # get_mvdr_vector falls back to least squares for singular noise matrices: the stack must not raise when every
         # individual problem has a result, and the regular bins must agree
@@ -657,7 +667,7 @@ def search(ctx):
                 nz[f] = pu.singular_psd(rng, D, str(rng.choice(['zero', 'dead-channel'])))
             ctx.count(f'search-singular:mvdr:extra-axes-{len(extra)}')
             ctx.run(stacked_equals_slices, fn='get_mvdr_vector', arrays={'atf': pu.cnormal(rng, lead + (D,)), 'noise': nz},
-                    kwargs={}, regular=np.broadcast_to(~sb, lead).copy())
+                    kwargs={}, regular=np.broadcast_to(~sb, lead).copy(order='K'))
         # stacked vs individual with singular bins: only regular indices are compared, the stack must not raise
         if i % 3 == 0:
             key = 'ref_channel' if fn == 'souden' else 'reference_channel'
